@@ -230,6 +230,15 @@ func runScenario(ogenBin string, scn scenario, dir string) runResult {
 	case "config_field":
 		os.WriteFile(filepath.Join(dir, "cfg.yml"), []byte("no_such_field: 1\n"), 0o644)
 		args = append(args, "--config", filepath.Join(dir, "cfg.yml"))
+	case "config_feature":
+		os.WriteFile(filepath.Join(dir, "cfg.yml"), []byte("generator:\n  features:\n    enable:\n      - client/request/option\n"), 0o644)
+		args = append(args, "--config", filepath.Join(dir, "cfg.yml"))
+	case "config_feature_disable":
+		os.WriteFile(filepath.Join(dir, "cfg.yml"), []byte("generator:\n  features:\n    disable:\n      - paths/clients\n"), 0o644)
+		args = append(args, "--config", filepath.Join(dir, "cfg.yml"))
+	case "config_type":
+		os.WriteFile(filepath.Join(dir, "cfg.yml"), []byte("generator:\n  convenient_errors: [1]\n"), 0o644)
+		args = append(args, "--config", filepath.Join(dir, "cfg.yml"))
 	}
 	switch scn.FailAt {
 	case "nospec":
@@ -305,7 +314,7 @@ func runScenario(ogenBin string, scn scenario, dir string) runResult {
 // Check is the C20 entry point.
 func Check(r *core.Run) error {
 	r.SetRule("TLC checks the machine of cmd/ogen/main.go (flags, config, spec, parse, IR, directory, clean, write) for every fault point x --clean x initial directory of <= MaxEntries name classes: G1-G5 hold and every event " +
-		"sequence is accepted by the acceptor. Conformance: TLC enumerates scenarios (12 fault points x --clean x {absent, empty, each single entry, the full 14-entry directory}; successful runs also every pair); the harness materialises " +
+		"sequence is accepted by the acceptor. Conformance: TLC enumerates scenarios (15 fault points x --clean x {absent, empty, each single entry, the full 17-entry directory}; successful runs also every pair); the harness materialises " +
 		"directory, config and spec, runs the cmd/ogen binary built from /repo under strace -f, maps successful mkdir/unlink/rmdir/open(O_CREAT|O_TRUNC|O_WRONLY)/rename/chmod calls under the target to events and snapshots names, modes and " +
 		"sha256 before/after; TLC validates every scenario's trace (events, exit code, snapshot). Non-trivial = the directory is non-empty or a mutating event occurred; distinct = (fault, clean, directory class, outcome).")
 	mcEntries, maxPair := 3, 2
